@@ -10,6 +10,6 @@ mkdir -p $V/build $V/evidence $V/replays
 (cd $V/lean && git -C $V checkout -- lean/CorsVerif/Gen/Facts.lean 2>/dev/null || true)
 (cd $V/lean && lake build driver && cp .lake/build/bin/driver $V/build/driver.pinned)
 $V/build/extract -repo /repo -out $V/lean/CorsVerif/Gen/Facts.lean
-(cd $V/lean && lake build)
+(cd $V/lean && lake build CorsVerif driver)
 $V/tools/build_harness.sh
 echo setup-done
